@@ -38,6 +38,8 @@ Readings adopted:
     first and Annotated second everywhere; before fix e0af9e7 _is_optional_type did not look through Annotated, so Annotated[X | None, m]
     was not optional (None refused, Enum/dict/frozenset arrived unconverted): a genuine defect of this property, repaired; the check for
     it stays (key optional-marker-inside-annotated-not-recognised) and the model's is_opt follows the repaired shape (is_optional_tie).
+  * inherited dataclasses (a serializable dataclass extending another) are echoed in a fixed order, parent-first and leaf-first
+    families, before anything else in the process serializes them (phase 0); oracle only, no model cases.
   * sets (`frozenset`) only: `set[T]` is refused by _infer_arrow_type at class-definition time.
   * equality of floats is bit equality (NaN payload, signed zero).
 """
@@ -328,6 +330,32 @@ def run(ctx: Any) -> None:
                 "frozenset/dict combinations to depth 3 + annotations outside the statement) x value (boundary-biased well-typed values, "
                 "targeted ill-typed / unrepresentable values, a shared pool) x {argument passed, default passed, argument omitted} x "
                 "{socket-family bytes, HTTP, pipe threads (subset)}; distinct by (annotation, value, mode); non-trivial = the value is not None")
+
+    # ------------------------------------------------------------------ (0) inherited dataclass families, first thing in the process
+    # A dataclass extending another serializable dataclass must be encoded with ITS OWN schema whatever was serialized before it:
+    # family A is echoed parent, child, parent, sibling, grandchild, ...; family B leaf first.  Fixed values, no model cases.
+    try:
+        Pi, impl_i = H.build_inheritance_service()
+        srv_i = RpcServer(Pi, impl_i)
+        cli_i = make_sync_client(srv_i, token_key=b"k" * 32)
+        with http_connect(Pi, client=cli_i, compression_level=None) as hp_i:
+            for step, (cname, inst) in enumerate(H.inheritance_plan()):
+                for meth in (cname, "opt_" + cname):
+                    for transport, o in (("socket", H.call_socket(srv_i, srv_i._methods[meth], {"v": inst})), ("http", H.call_proxy(hp_i, meth, {"v": inst}))):
+                        ctx.count("impl_runs")
+                        ctx.tally("B:shape", "inherited-data")
+                        ctx.case([meth, repr(inst), "inheritance", step], nontrivial=True)
+                        repl = {"annotation": meth.replace("opt_", "") + (" | None" if meth.startswith("opt_") else ""), "value": repr(inst), "transport": transport,
+                                "step": step, "order": [c for c, _ in H.inheritance_plan()][: step + 1], "outcome": o.brief(), "seen": repr(o.seen)[:300]}
+                        if not o.ok:
+                            ctx.violation("well-typed-value-rejected-inherited-dataclass", f"an instance of a dataclass subclass is refused ({o.where}: {o.err})", repl)
+                        else:
+                            if not (o.seen and H.exact_eq(inst, o.seen[0])):
+                                ctx.violation("kwargs-differ-inherited-dataclass", "the implementation received a different instance (fields added by the subclass lost?)", repl)
+                            if not H.exact_eq(inst, o.result):
+                                ctx.violation("echo-differs-inherited-dataclass", "the echoed instance differs from the one passed (fields added by the subclass lost?)", repl)
+    except Exception as e:  # noqa: BLE001
+        ctx.violation("inherited-dataclass-service-failed", f"{type(e).__name__}: {e}", {"classes": list(H.FAMILY_A) + list(H.FAMILY_B)})
 
     # ------------------------------------------------------------------ (A) pyarrow alone
     cases_a: list[tuple[str, str]] = []
